@@ -236,6 +236,47 @@ func Monitors(c *Case) []vh.Violation {
 			delete(pending, o.A) // a fresh generation
 		}
 	}
+	// C04: a decided restart takes effect. The final shutdown is requested only when nothing is enabled any more, so a
+	// restart that began (OnRestarting handled) before it, in a run where nobody was asked to terminate and no supervisor
+	// decided Stop/Escalate before it, must have produced the next instance (OnLaunch with a higher instance number)
+	shutAt := len(c.Steps)
+	for i, st := range c.Steps {
+		if st.L.K == "shutdown" {
+			shutAt = i
+			break
+		}
+	}
+	calmBefore := true
+	for _, o := range fl {
+		if o.Step >= shutAt {
+			break
+		}
+		if o.K == "TR" || (o.K == "DEC" && (o.Dir == "stop" || o.Dir == "escalate")) || o.K == "X" {
+			calmBefore = false
+		}
+	}
+	if calmBefore && !stuck {
+		for _, o := range fl {
+			if o.K == "H" && o.Trig == "RG" && o.Step < shutAt {
+				done := false
+				for _, p := range fl {
+					if p.K == "H" && p.A == o.A && p.Trig == "L" && p.Inst > o.Inst && p.Step < shutAt {
+						done = true
+					}
+				}
+				if !done {
+					cause := "other"
+					for _, p := range fl {
+						if p.K == "F" && p.A == o.A && p.Inst == o.Inst && p.Step >= o.Step {
+							cause = "lifecycle-handler-panic"
+						}
+					}
+					add("C04:restart-never-completed", fmt.Sprintf("actor %d incarnation %d handled OnRestarting at step %d but no new instance was launched before the system went quiet (step %d)",
+						o.A, o.Inst, o.Step, shutAt), map[string]string{"cause": cause})
+				}
+			}
+		}
+	}
 	// ---------------- C05: hierarchy
 	parent := map[int]int{}
 	for _, o := range fl {
